@@ -44,6 +44,18 @@ type MyChan chan error
 
 func (MyErr) Error() string { return "my error" }
 
+// defined types of a value kind that also implement error: as the single result of a function they are
+// values, as the single result of a command they are errors
+type MyErrInt int
+type MyErrString string
+type MyErrFloat64 float64
+type MyErrBool bool
+
+func (MyErrInt) Error() string     { return "code" }
+func (MyErrString) Error() string  { return "text" }
+func (MyErrFloat64) Error() string { return "level" }
+func (MyErrBool) Error() string    { return "flag" }
+
 var errorType = reflect.TypeOf((*error)(nil)).Elem()
 
 var typeCatalogue = map[string]reflect.Type{
@@ -56,6 +68,8 @@ var typeCatalogue = map[string]reflect.Type{
 	"MyFloat64": reflect.TypeOf(MyFloat64(0)), "MyBool": reflect.TypeOf(MyBool(false)), "MyString": reflect.TypeOf(MyString("")),
 	"MyIntB": reflect.TypeOf(MyIntB(0)), "MyInt64B": reflect.TypeOf(MyInt64B(0)), "MyFloat64B": reflect.TypeOf(MyFloat64B(0)),
 	"MyBoolB": reflect.TypeOf(MyBoolB(false)), "MyStringB": reflect.TypeOf(MyStringB("")),
+	"MyErrInt": reflect.TypeOf(MyErrInt(0)), "MyErrString": reflect.TypeOf(MyErrString("")),
+	"MyErrFloat64": reflect.TypeOf(MyErrFloat64(0)), "MyErrBool": reflect.TypeOf(MyErrBool(false)),
 	"MyErr": reflect.TypeOf(MyErr{}), "MyStruct": reflect.TypeOf(MyStruct{}), "[]int": reflect.TypeOf([]int{}),
 	"*int": reflect.TypeOf((*int)(nil)), "chan error": reflect.TypeOf((chan error)(nil)),
 	"<-chan error": reflect.TypeOf((<-chan error)(nil)), "chan<- error": reflect.TypeOf((chan<- error)(nil)),
@@ -67,7 +81,7 @@ var paramTypeIDs = []string{"int", "int8", "int16", "int32", "int64", "float32",
 	"MyIntB", "MyInt64B", "MyFloat64B", "MyBoolB", "MyStringB",
 	"uint", "MyStruct", "[]int", "*int", "any", "error"}
 var resultTypeIDs = []string{"int", "int64", "float32", "float64", "bool", "string", "MyInt", "MyFloat64", "MyBool", "MyStringB",
-	"error", "MyErr", "MyStruct", "uint", "[]int", "chan error", "<-chan error", "chan<- error", "MyChan", "chan int", "chan MyErr"}
+	"error", "MyErr", "MyErrInt", "MyErrString", "MyErrFloat64", "MyErrBool", "MyStruct", "uint", "[]int", "chan error", "<-chan error", "chan<- error", "MyChan", "chan int", "chan MyErr"}
 
 func ids(r *rand.Rand, from []string, n int, good int) []*sx.Node {
 	out := []*sx.Node{}
@@ -103,7 +117,7 @@ func genBridge(r *rand.Rand, tier string) *sx.Node {
 			case 1, 2, 3:
 				results = ids(r, resultTypeIDs[:10], 1, 100)
 			case 4:
-				results = []*sx.Node{sx.Str([]string{"error", "MyErr"}[r.Intn(2)])}
+				results = []*sx.Node{sx.Str([]string{"error", "MyErr", "MyErrInt", "MyErrString", "MyErrFloat64", "MyErrBool"}[r.Intn(6)])}
 			case 5:
 				results = []*sx.Node{ids(r, resultTypeIDs[:10], 1, 100)[0], sx.Str([]string{"error", "MyErr"}[r.Intn(2)])}
 			default:
@@ -114,7 +128,7 @@ func genBridge(r *rand.Rand, tier string) *sx.Node {
 			case 0:
 				results = []*sx.Node{}
 			case 1:
-				results = []*sx.Node{sx.Str([]string{"error", "MyErr"}[r.Intn(2)])}
+				results = []*sx.Node{sx.Str([]string{"error", "MyErr", "MyErrInt", "MyErrString"}[r.Intn(4)])}
 			case 2, 3:
 				results = []*sx.Node{sx.Str([]string{"chan error", "<-chan error", "chan<- error", "MyChan", "chan MyErr", "chan int"}[r.Intn(6)])}
 			default:
